@@ -14,7 +14,8 @@ REPO = os.environ.get("VERIF_REPO", "/repo")
 NATIVE_OK = {"vh_C05_commitment_step", "vh_C05_setconfig_step", "vh_C05_commitment_seq", "vh_C07_check_config", "vh_C07_next_config",
              "vh_C19_new", "vh_C19_inductive", "vh_C19_diff", "vh_vote_step", "vh_prevote_step", "vh_ae_term", "vh_ae_log",
              "vh_compact_arith", "vh_remove_old_logs", "vh_backoff", "vh_replicate_step", "vh_dispatch", "vh_setup_leader",
-             "vh_override_notify", "vh_future_once", "vh_shutdown_api", "vh_fsm_pairing"}
+             "vh_override_notify", "vh_future_once", "vh_shutdown_api", "vh_fsm_pairing",
+             "vh_crash_ae", "vh_crash_vote", "vh_processlogs_faults"}
 
 
 # a counterexample that depends on which ready case a select picks cannot be forced natively (Go picks at random)
